@@ -52,6 +52,10 @@ def d_symbol_index(f, s, R, db):
         ln, idx = R.operand(t['ops'][0]), R.operand(t['ops'][1])
         if symbol_ty(f, idx):
             l = norm(ln)
+            if l[0] == 'len' and l[1][0] in ('v', 'p'):
+                ty = f.local_ty(l[1][1])
+                if 'GenericArray<' in ty and 'Alphabet>::K' in ty:
+                    return 'symbol-index: Symbol::as_index() < K = length of a GenericArray<_, A::K>'
             if l[0] == 'len' and l[1][0] == 'call' and l[1][1].endswith(('::index_mut', '::index')):
                 recv = l[1][2][0]
                 ty = type_of(f, recv)
@@ -96,6 +100,10 @@ def type_of(f, e):
     e = norm(e)
     if e[0] in ('v', 'p'):
         return f.local_ty(e[1])
+    # a matrix reached through Option::unwrap / as_mut / deref chains: type of the innermost local that mentions it
+    for x in X.walk(e):
+        if x[0] in ('v', 'p') and ('DenseMatrix<' in f.local_ty(x[1]) or 'GenericArray<' in f.local_ty(x[1])):
+            return f.local_ty(x[1])
     return None
 
 
